@@ -463,16 +463,22 @@ func childMain(p *Prop, tier string, seed int64, from, to int, witness, outPath 
 		sigset = map[string]struct{}{}
 	}
 	absorb := func(c *Case, incon string, wantSample bool) {
+		// (actors that a case left behind, e.g. after a stall verdict, may still
+		// be recording: the monitor's own state is read under its lock)
+		c.mu.Lock()
 		for s := range c.sigs {
 			sigset[s] = struct{}{}
 		}
 		for k, v := range c.counts {
 			delta.Counts[k] += v
 		}
-		if len(c.viol) > 0 {
+		viol := append([]Violation(nil), c.viol...)
+		incons := append([]string(nil), c.incon...)
+		c.mu.Unlock()
+		if len(viol) > 0 {
 			var sm, ex json.RawMessage
 			seen := map[string]bool{}
-			for _, v := range c.viol {
+			for _, v := range viol {
 				if seen[v.Key] { // one report per key per case
 					continue
 				}
@@ -500,7 +506,7 @@ func childMain(p *Prop, tier string, seed int64, from, to int, witness, outPath 
 		if incon != "" {
 			delta.Incon = append(delta.Incon, incon)
 		}
-		delta.Incon = append(delta.Incon, c.incon...)
+		delta.Incon = append(delta.Incon, incons...)
 	}
 
 	if witness != "" {
